@@ -1,5 +1,6 @@
 import AmrK.Grid
 import AmrK.Basic
+import AmrK.WritePerm
 /-! # C10 — whip's uniform grid is the covering grid of the chosen field -/
 namespace C10
 open Grid
@@ -21,5 +22,11 @@ theorem completion_order_independent (a : Nat → Option Nat) (w1 w2 : (Nat → 
     (hd : ∀ i, ¬ (w1.1 i = true ∧ w2.1 i = true)) :
     Probe.write (Probe.write a w1) w2 = Probe.write (Probe.write a w2) w1 :=
   Probe.write_comm a w1 w2 hd
+
+/-- **… for any number of results and any permutation of their arrival**: pairwise-disjoint region
+    writes of one level give the same array in every order -/
+theorem any_arrival_order {l l' : List ((Nat → Bool) × Nat)} (p : l.Perm l') (h : Probe.PairwiseDisjoint l)
+    (a : Nat → Option Nat) : l.foldl Probe.write a = l'.foldl Probe.write a :=
+  Probe.foldl_write_perm p h a
 
 end C10
